@@ -32,7 +32,11 @@ def cases(tier, seed):
     n = 110 if tier == "quick" else 12000
     for i in range(n):
         fams = ["fine_patch", "refined", "sample"] if i % 5 == 4 else None  # high-resolution regional patches / locally refined closed meshes
-        yield {"mesh": gen.random_mesh(rng, 150 if tier == "quick" else 900, families=fams), "dseed": int(rng.integers(0, 10**6)),
+        md = gen.random_mesh(rng, 150 if tier == "quick" else 900, families=fams)
+        if i % 6 == 1 and md["family"] != "sample":
+            # a face (or, every other time, a node) a fraction of a degree away from a pole, not at it
+            md = dict(md, ops=list(md.get("ops", [])) + [["snap", [["face_near_npole", "face_near_spole", "node_near_npole", "node_near_spole"][(i // 6) % 4], int(rng.integers(0, 1000))]]])
+        yield {"mesh": md, "dseed": int(rng.integers(0, 10**6)),
                "source": ["topology", "topology", "topology", "centres_xyz_metres", "centres_xyz_and_lonlat_metres", "mpas", "topology_float32", "topology_with_node_faces"][int(rng.integers(0, 8))]}
 
 
